@@ -24,6 +24,10 @@ type KnownFinding struct {
 	MsgContains string `json:"msg_contains,omitempty"` // further restriction on the violation message
 	What        string `json:"what"`
 	Commit      string `json:"commit,omitempty"`
+	// Replay (open findings, optional): committed replay file, relative to /verif. When the seeded
+	// search of a run happens not to hit the finding, the driver re-executes this file so that the
+	// KNOWN-FINDING line of a listed finding does not depend on the luck of the draw.
+	Replay string `json:"replay,omitempty"`
 }
 
 // WorkerOut is what one worker process reports to the driver.
